@@ -3,6 +3,7 @@
 package internal
 
 import (
+	"bytes"
 	"fmt"
 	"strings"
 	"testing"
@@ -25,6 +26,7 @@ type c08sCfg struct {
 	holder  bool  // a thread doing policyMu.Lock; yield; Unlock
 	writer  bool  // a client doing Set(other key) -> maintenance takes policyMu
 	loading bool  // hits go through LoadingStore.Get
+	recover bool  // a thread running LoadCache (Store.Recover) of a stream saved by this store while it was empty: it holds policyMu
 }
 
 type c08sRun struct {
@@ -39,6 +41,8 @@ type c08sRun struct {
 	est0, est1 uint
 	tailHits   int
 	loads      int
+	saved      []byte
+	recErr     string
 }
 
 func c08sBody(cfg c08sCfg) (*c08sRun, func()) {
@@ -71,6 +75,13 @@ func c08sBody(cfg c08sCfg) (*c08sRun, func()) {
 		})
 		settle()
 		vrt.NoBranch(func() {
+			if cfg.recover {
+				var buf bytes.Buffer
+				if err := r.h.s.Persist(1, &buf); err != nil {
+					r.recErr = "Persist: " + err.Error()
+				}
+				r.saved = buf.Bytes()
+			}
 			r.h.s.Set(key, 1, 1, 0)
 			r.h.s.Wait()
 		})
@@ -92,6 +103,15 @@ func c08sBody(cfg c08sCfg) (*c08sRun, func()) {
 				r.h.s.policyMu.Lock()
 				vrt.Yield("hold", "policyMu")
 				r.h.s.policyMu.Unlock()
+				r.finished++
+			})
+		}
+		if cfg.recover {
+			r.want++
+			vrt.GoNamed("loadcache", func() {
+				if err := r.h.s.Recover(1, bytes.NewReader(r.saved)); err != nil {
+					r.recErr = "Recover: " + err.Error()
+				}
 				r.finished++
 			})
 		}
@@ -138,6 +158,7 @@ func c08sCfgs() []c08sCfg {
 		{name: "S4-3x2-holder", gets: []int{2, 2, 2}, holder: true},
 		{name: "S5-loading-2x2-holder", gets: []int{2, 2}, holder: true, loading: true},
 		{name: "S6-2x3-writer", gets: []int{3, 3}, writer: true},
+		{name: "S7-2x2-loadcache", gets: []int{2, 2}, recover: true},
 	}
 }
 
@@ -165,7 +186,11 @@ func TestVerif_C08Store(t *testing.T) {
 					return
 				}
 				if r.finished != r.want {
-					res.Violate("deadlock", strings.Join(stuckNow("client", "holder", "writer"), ","), fmt.Sprintf("%s: %d of %d threads finished", cfg.name, r.finished, r.want), cost, rp)
+					res.Violate("deadlock", strings.Join(stuckNow("client", "holder", "writer", "loadcache"), ","), fmt.Sprintf("%s: %d of %d threads finished", cfg.name, r.finished, r.want), cost, rp)
+					return
+				}
+				if r.recErr != "" {
+					res.Violate("driver", "loadcache-failed", cfg.name+": "+r.recErr, cost, rp)
 					return
 				}
 				state := fmt.Sprintf("stripe head=%d tail=%d token-free=%v occupied-slots=%v", r.head, r.tail, r.free, r.slots)
